@@ -196,6 +196,7 @@ def execute(case, ctx):
         rec.pre_builtin_hooks = (pre,)
         rec.builtin_hooks = (post,)
         off_before = VCLOCK.offset
+        REGEX.mark, REGEX.mark_n = REGEX.clock if REGEX.clock != float('inf') else 0.0, len(REGEX.entries)
         rout = real_eval(parser, src, names, budget=5000, rec=rec)
         ctx.event(step, rout.kind, [(f[0], [(e[0], e[1]) for e in f[1]]) for f in rec.findings])
         ctx.op_kind(rout.kind)
